@@ -130,6 +130,42 @@ func jsonCases(r *hlib.Rand, n int, want map[string]bool, truncLimit int) []*tca
 			}
 		}
 	}
+	if want["json"] {
+		// trailing data right after a value whose length sits at a read-buffer boundary of encoding/json's
+		// Decoder (512·(2^k−1) bytes): the "exactly one top-level value" rule must not depend on buffering
+		for _, c := range []int{512, 1536, 3584, 7680, 15872} {
+			for L := c - 2; L <= c+2; L++ {
+				for kind := 0; kind < 2; kind++ {
+					var doc []byte
+					var src string
+					if kind == 0 {
+						doc = []byte("\"" + strOfLen(L-2) + "\"")
+						src = vStr(strOfLen(L - 2)).String()
+					} else {
+						n := (L - 1) / 2 // [1,1,…,1] has 2n+1 bytes
+						doc = []byte("[" + strings.Repeat("1,", n-1) + "1]")
+						for len(doc) < L {
+							doc = append([]byte{'['}, append(doc, ']')...)
+							if len(doc) > L {
+								doc = []byte(" " + string(doc[1:len(doc)-1]))
+							}
+						}
+						src = ""
+					}
+					if src != "" {
+						cs = append(cs, &tcase{format: "json", in: doc, kind: "full", src: src})
+					}
+					for _, g := range []string{"x", " x", "]", "1", "\n{}", "\"a\""} {
+						s2 := src
+						if s2 == "" {
+							s2 = "n"
+						}
+						cs = append(cs, &tcase{format: "json", in: append(append([]byte{}, doc...), g...), kind: "bad", src: s2})
+					}
+				}
+			}
+		}
+	}
 	if want["jsonl"] {
 		for i := 0; i < n; i++ {
 			vr := r.Fork()
